@@ -29,6 +29,7 @@ HttpsAt(hs, n, svcb) ==
           [] hs = "nx"       -> Fail(3)
           [] hs = "servfail" -> Fail(2)
           [] hs = "refused"  -> Fail(5)
+          [] hs = "notauth"  -> Fail(9)
           [] hs = "aliasdot" -> OK(<< RR(n, "HTTPS", Svc(0, "", "nil")) >>)
           [] hs = "svcdot"   -> OK(<< RR(n, "HTTPS", Svc(1, "", "E1")) >>)
           [] hs = "svct"     -> OK(<< RR(n, "HTTPS", Svc(1, "t", "E1")) >>)
@@ -56,6 +57,7 @@ AddrAt(shape, n, typ, ip) ==
     [] shape = "cnamebroken"  -> OK(<< RR(n, "CNAME", N("c")), RR(N("evil"), typ, "evil1") >>)
     [] shape = "nx"       -> Fail(3)
     [] shape = "servfail" -> Fail(2)
+    [] shape = "notauth"  -> Fail(9)
 
 VARIABLES inp, hs, as, a6s, ts,                 \* the case
           pc, want, seen, https, addl, tq, address, queries, result
@@ -165,10 +167,11 @@ OnlyOwned == Done /\ result.kind = "ok" =>
                /\ \A k \in DOMAIN result.https : (result.https[k].target # "evil" /\ result.https[k].ech # "E2") \/ hs = "unsorted"
                /\ \A k \in DOMAIN result.addl : \A j \in DOMAIN result.addl[k].ips : result.addl[k].ips[j] \notin EvilData
 SortedByPriority == Done /\ result.kind = "ok" => \A a, b \in DOMAIN result.https : a < b => result.https[a].prio <= result.https[b].prio
-NxOnHttpsIsAbsence == Done /\ hs = "nx" /\ inp.valid /\ inp.literal = "" /\ as \notin {"nx", "servfail"} /\ a6s \notin {"nx", "servfail"} => result.kind = "ok" /\ result.https = <<>>
+NxOnHttpsIsAbsence == Done /\ hs = "nx" /\ inp.valid /\ inp.literal = "" /\ as \notin {"nx", "servfail", "notauth"} /\ a6s \notin {"nx", "servfail", "notauth"} => result.kind = "ok" /\ result.https = <<>>
 RcodeMapping == Done /\ inp.valid /\ inp.literal = "" =>
                   /\ (hs = "servfail" => result = [kind |-> "err", class |-> "server_failure"])
                   /\ (hs = "refused" => result = [kind |-> "err", class |-> "refused"])
+                  /\ (hs = "notauth" => result = [kind |-> "err", class |-> "other"])
 NameLimits == Done /\ ~inp.valid /\ inp.literal = "" => result = [kind |-> "err", class |-> "invalid_name"] /\ queries = <<>>
 LoopFallsBack == Done /\ hs \in {"loop", "chain4", "chain6"} /\ result.kind = "ok" => result.https = <<>>
 Termination == <>Done
